@@ -132,8 +132,15 @@ def run(program, res, tier):
     else:
         res.ok("C27-S1", "Pandas: window sort direction derives from op.reverse")
     # partition columns ahead of the order columns: the key list is seeded from partition_by, order_by appended
-    seeds = [n for n in g.stmt_nodes(("stmt",)) if isinstance(n.stmt, ast.Assign) and unparse(n.stmt.targets[0]) == "col_list"]
-    appends = [n for n in g.stmt_nodes(("stmt",)) if "col_list.append(c)" in unparse(n.stmt)
+    # the key list, by role: the local seeded from op.partition_by that is appended to inside `for c in op.order_by`
+    klist = None
+    for nd in g.stmt_nodes(("stmt",)):
+        for (_c, e) in pat.find("_K.append(_C)", nd.stmt):
+            if any(isinstance(b.stmt, ast.For) and unparse(b.cond) == "op.order_by" and isinstance(b.stmt.target, ast.Name) and b.stmt.target.id == e["_C"]
+                   for b, _l in g.lexical_guards(nd)):
+                klist = e["_K"]
+    seeds = [n for n in g.stmt_nodes(("stmt",)) if isinstance(n.stmt, ast.Assign) and isinstance(n.stmt.targets[0], ast.Name) and n.stmt.targets[0].id == klist]
+    appends = [n for n in g.stmt_nodes(("stmt",)) if klist is not None and any(e["_K"] == klist for (_c, e) in pat.find("_K.append(_C)", n.stmt))
                and any(isinstance(b.stmt, ast.For) and "op.order_by" in unparse(b.cond) for b, _l in g.lexical_guards(n))]
     if seeds and "op.partition_by" in unparse(seeds[0].stmt.value) and appends and g.dominates(seeds[0].id, appends[0].id):
         res.ok("C27-S1", "Pandas: partition columns precede order columns in the sort key")
